@@ -32,7 +32,8 @@ ASSUMPTIONS = ["static stores during the session; both sides honest; one sender 
                "a timeout within the deadline is taken as a deadlock; completion of all attempts as termination"]
 TRUSTED = ["modelled not verified: futures-channel Sender::poll_ready/poll_flush parking, tokio select! arm choice, QUIC transport replaced by mpsc"]
 RULE = ("quick: for c = 0..8 the boundary volumes on both sides (n-1/n/n+3 operations around n = c), mixed with overlapping prefixes, two-author sides and "
-        "one-sided volumes; predicted-deadlock cases limited to 8 (each costs one deadline); thorough: full grid c = 0..8 x volumes 0..c+3 per side "
+        "one-sided volumes; predicted-deadlock cases limited to 8 (each costs one deadline); + 5 long / pruned-prefix cases (a log of 100 with 0..79 pruned "
+        "to an empty peer, prefixes of 64..300, ranges of 129..300 entries, c = 1..8, one side within c); thorough: full grid c = 0..8 x volumes 0..c+3 per side "
         "+ 150 random multi-author cases. non-trivial = at least one side has to send c or more sync-phase messages")
 
 
@@ -85,6 +86,18 @@ def predicted_deadlock(case):
     return c == 0 or (a > c and b > c)
 
 
+def long_cases(rng, tries):
+    """Data volume in the other dimension: long logs and logs behind a long pruned prefix (a sender that
+    walks a range in windows of 64 / 128 / 256 sequence numbers meets empty windows and window
+    boundaries), one-sided or with a small other side, so that termination is guaranteed."""
+    lg = [[0, [0]], [1, [0]]]
+    yield {"cap": 8, "logs": lg, "repa": [[0, 0, rows(20, lo=80)]], "repb": [], "ms": 1500, "tries": tries}       # 100 entries, 0..79 pruned
+    yield {"cap": 3, "logs": lg, "repa": [[1, 0, rows(2)]], "repb": [[0, 0, rows(12, lo=130)]], "ms": 1500, "tries": tries}
+    yield {"cap": 4, "logs": lg, "repa": [[0, 0, rows(150)], [1, 0, rows(1)]], "repb": [[1, 0, rows(3)]], "ms": 1500, "tries": tries}
+    yield {"cap": 1, "logs": lg, "repa": [[0, 0, rows(70, lo=rng.randint(64, 300))]], "repb": [[0, 0, rows(1)]], "ms": 1500, "tries": tries}
+    yield {"cap": 2, "logs": lg, "repa": [], "repb": [[1, 0, rows(rng.randint(129, 300), lo=rng.choice([0, 257]))]], "ms": 1500, "tries": tries}
+
+
 def gen(tier, rng):
     if tier == "quick":
         dl = 0
@@ -104,11 +117,16 @@ def gen(tier, rng):
                "repb": [[1, 0, rows(9)]], "ms": 1500, "tries": 6}
         yield {"cap": 5, "logs": [[0, [0]], [1, [0]], [2, [0, 1]]], "repa": [[0, 0, rows(2)], [2, 0, rows(2)], [2, 1, rows(1)]],
                "repb": [[1, 0, rows(9)]], "ms": 1500, "tries": 6}
+        for case in long_cases(rng, 2):
+            yield case
         return
     for c in range(0, 9):
         for na in range(0, c + 4):
             for nb in range(0, c + 4):
                 yield mk(c, na, nb, ms=2000)
+    for _ in range(4):
+        for case in long_cases(rng, 3):
+            yield dict(case, ms=2000)
     for _ in range(150):
         c = rng.randint(1, 8)
         authors = sorted(rng.sample(range(0, 5), rng.randint(2, 4)))
